@@ -40,12 +40,12 @@ def run_program(acc, params, isa, files, main='main.asm', incdirs=(), start=0, e
         # with other output options (nothing written at all / a listing only / an image window), judged on its status
         _OPT[0] += 1
         if _OPT[0] % 5 == 0:
-            mode = _OPT[0] // 5 % 3
-            kw = [{'binary': False}, {'binary': False, 'pretty': 'listing'}, {'start': 0x7000}][mode]
+            mode = _OPT[0] // 5 % 4
+            kw = [{'binary': False}, {'binary': False, 'pretty': 'listing'}, {'start': 0x7000}, {'verbose': 3}][mode]
             case2 = Case(isa, R.render_files(files), main=main, incdirs=incdirs, defines=defines, tag=tag, **kw)
             out2 = acc.run(case2)
             acc.transition()
-            spec2 = dict(spec, status_only=True, mode=['--no-binary', '--no-binary -p -t listing', '-s 28672'][mode])
+            spec2 = dict(spec, status_only=True, mode=['--no-binary', '--no-binary -p -t listing', '-s 28672', '-vvv'][mode])
             msg2 = judge_expect(spec2, [out2])
             if msg2:
                 acc.violation([case2], spec2, f'[{spec2["mode"]}] {msg2}', [out2], priority=priority)
